@@ -6,8 +6,8 @@ Import ListNotations.
 
 (* THE SEMANTIC CLAUSES, for every input: 'the relabelled event has the same probability as the original in every compatible structural causal
    model; inconsistent is reported only for events of probability zero in every compatible model'.
-   Semantics (Sem/Scm.v, Sem/CfSem.v): a functional SCM over the graph g0 - one structural function per node reading its parents only, any exogenous
-   space U whose state u is shared by all worlds, values relative to a base assignment rho; Y_x at u is the value of Y in the unique solution
+   Semantics (Sem/Scm.v, Sem/CfSem.v): a functional SCM over the graph g0 - one structural function per node reading its parents only, any value type D, any exogenous
+   space U whose state u is shared by all worlds, two distinct named values rho (n, false) and rho (n, true) per variable; Y_x at u is the value of Y in the unique solution
    of the submodel M_x at u. For EVERY well-formed acyclic ADMG without bidirected self-loops, every event that is a dict over variables of the graph
    in y0's normal form (event_ok), every such model, EVERY visiting order of the worlds and EVERY exogenous state u: the relabelled event is true at u
    exactly when the original is, and when make-cg answers 'inconsistent' the original is true at no state. Truth at the same states gives the same
@@ -15,20 +15,20 @@ Import ListNotations.
    Proof (Proofs/CgSem*P.v): Lemma 24 for the implemented predicates (two nodes passing the test take the same value wherever the event holds of the
    variables standing before them: merge_equality), the invariant of the merging loop (every free node has, for each parent in g0, exactly one
    graph parent of that name, whose value is the parent's value in the node's world: InvG), Lemma 25 (update of the event: transfer_holds). *)
-Theorem C18_relabelled_event_is_true_at_exactly_the_same_states (g0 : mg nat) (U : Type) (f : nat -> (nat -> bool) -> U -> bool) (rho : nat -> bool)
+Theorem C18_relabelled_event_is_true_at_exactly_the_same_states (g0 : mg nat) (D : Type) `{EqB D} (U : Type) (f : nat -> (nat -> D) -> U -> D) (rho : nat * bool -> D)
   (order : list nat) (ev0 : event) cf r :
-  local g0 U f -> is_topo g0 order = true -> wf g0 -> (forall x, ~ In (x, x) (bid g0)) -> event_ok g0 ev0 ->
+  (forall n, rho (n, false) <> rho (n, true)) -> local g0 U f -> is_topo g0 order = true -> wf g0 -> (forall x, ~ In (x, x) (bid g0)) -> event_ok g0 ev0 ->
   In (cf, r) (make_counterfactual_graph_all (gv g0) ev0 (map V order)) ->
   forall u, match r with
             | Some ev' => event_true U f rho order ev0 u = event_true U f rho order ev' u
             | None => event_true U f rho order ev0 u = false
             end.
-Proof. intros Hl Ho Hw Hn. exact (cg_all_same_truth g0 U f rho Hl order Ho Hw Hn ev0 cf r). Qed.
+Proof. intros Hr Hl Ho Hw Hn. exact (cg_all_same_truth g0 U f rho Hr Hl order Ho Hw Hn ev0 cf r). Qed.
 
 (* the same for any given list of worlds (any order, any superset of the event's worlds) *)
-Theorem C18_relabelled_event_same_truth_for_given_worlds (g0 : mg nat) (U : Type) (f : nat -> (nat -> bool) -> U -> bool) (rho : nat -> bool)
+Theorem C18_relabelled_event_same_truth_for_given_worlds (g0 : mg nat) (D : Type) `{EqB D} (U : Type) (f : nat -> (nat -> D) -> U -> D) (rho : nat * bool -> D)
   (order : list nat) (worlds : list world) (ev0 : event) cf r :
-  local g0 U f -> is_topo g0 order = true -> wf g0 -> (forall x, ~ In (x, x) (bid g0)) ->
+  (forall n, rho (n, false) <> rho (n, true)) -> local g0 U f -> is_topo g0 order = true -> wf g0 -> (forall x, ~ In (x, x) (bid g0)) ->
   (forall w, In w worlds -> NoDup (map fst (norm_ivs w))) -> NoDup (map norm_ivs worlds) ->
   NoDup (map fst ev0) -> wnamed ev0 -> (forall p, In p ev0 -> clean (fst p) /\ In (vn (fst p)) (nodes g0)) ->
   make_counterfactual_graph (gv g0) ev0 (map V order) worlds = (cf, r) ->
@@ -36,7 +36,7 @@ Theorem C18_relabelled_event_same_truth_for_given_worlds (g0 : mg nat) (U : Type
             | Some ev' => event_true U f rho order ev0 u = event_true U f rho order ev' u
             | None => event_true U f rho order ev0 u = false
             end.
-Proof. intros Hl Ho Hw Hn. exact (cg_same_truth g0 U f rho Hl order Ho Hw Hn worlds ev0 cf r). Qed.
+Proof. intros Hr Hl Ho Hw Hn. exact (cg_same_truth g0 U f rho Hr Hl order Ho Hw Hn worlds ev0 cf r). Qed.
 
 (* not vacuous: on X -> Y the event {X = x, Y_x = y} is well formed and is relabelled to {X = x, Y = y} (a merge happens);
    {Y = y', Y_x = y, X = x} is reported inconsistent *)
